@@ -112,32 +112,50 @@ def diffs(ctx, shard, nshards):
     V = Viol(sub, "C14")
     L = leaps(ctx)
     rnd = random.Random(ctx.sub_seed("c14d", shard))
+    leap_rows = [t for t, _ in L.rows[1:]]
     for it in range(500 if not ctx.thorough else 6000):
-        a = _near_instants(L, rnd, 1)[0]
-        bs = _near_instants(L, rnd, 40) + [a, a + 1, a - 1]
-        bs = [b for b in bs if 0 <= b <= TMAX]
-        lines = [fmt(b) for b in bs]
+        # operands are (epoch, is60); is60 = the inserted second 23:59:60 that ends at a listed instant
+        def pick(k):
+            out = [(t, False) for t in _near_instants(L, rnd, k)]
+            return [(rnd.choice(leap_rows), True) if rnd.random() < 0.15 else x for x in out]
+        a = pick(1)[0]
+        bs = pick(40) + [(a[0], False), (a[0] + 1, False), (a[0] - 1, False), (a[0], a[1])]
+        bs = [b for b in bs if 0 <= b[0] <= TMAX]
+        lines = [fmt(*b) for b in bs]
+        fa = fmt(*a)
         try:
-            out, _ = run_lines(ctx.build, "ddiff", [fmt(a), "-f", "%rS"], lines)
+            out, _ = run_lines(ctx.build, "ddiff", [fa, "-f", "%rS"], lines)
         except BatchError as e:
             V.add("batch:ddiff", {"a": a, "kind": "batch"}, detail=str(e), actual=e.result.brief())
             continue
         for b, l, o in zip(bs, lines, out):
-            if b >= a:
-                x = (b - a) + L.leaps_between(a, b)
-            else:
-                x = -((a - b) + L.leaps_between(b, a))
+            x = L.tai_of(*b) - L.tai_of(*a)
             sub.evaluations += 1
-            if L.leaps_between(min(a, b), max(a, b)) or max(a, b) >= I31:
+            lo, hi = min(a[0], b[0]), max(a[0], b[0])
+            if L.leaps_between(lo, hi) or hi >= I31 or a[1] or b[1]:
                 sub.nt((a, b))
             if o != "%d" % x:
-                tag = "ddiff:%rS:" + ("neg" if b < a else "pos")
-                if abs(b - a) >= I31:
+                tag = "ddiff:%rS:" + ("neg" if x < 0 else "pos")
+                if a[1] or b[1]:
+                    tag += ":op60"
+                if abs(b[0] - a[0]) >= I31:
                     tag += "@wide"
-                elif max(a, b) >= I31:
+                elif hi >= I31:
                     tag += "@post2038"
-                V.add(tag, {"a": fmt(a), "b": l, "exp": "%d" % x, "kind": "diff"}, expected="%d" % x, actual=o,
-                      weight=abs(b - a))
+                V.add(tag, {"a": fa, "b": l, "exp": "%d" % x, "kind": "diff"}, expected="%d" % x, actual=o,
+                      weight=abs(b[0] - a[0]))
+        # the same value however often and wherever %rS stands in the format
+        if it % 10 == 0:
+            b = bs[0]
+            x = L.tai_of(*b) - L.tai_of(*a)
+            if abs(b[0] - a[0]) < I31:
+                r = run_args(ctx.build, "ddiff", [fa, fmt(*b), "-f", "%rS %rS|%rS"])
+                got = (r.lines() or [""])[0]
+                want = "%d %d|%d" % (x, abs(x), abs(x))
+                sub.evaluations += 1
+                if got != want:
+                    V.add("ddiff:%rS:repeated", {"a": fa, "b": fmt(*b), "fmt": "%rS %rS|%rS", "exp": want, "kind": "diff"},
+                          expected=want, actual=got, weight=abs(b[0] - a[0]))
     sub.sample({"cmd": "ddiff 2012-06-30T23:59:59 2012-07-01T00:00:01 -f %rS", "expected": "3"})
     return sub
 
@@ -149,13 +167,16 @@ def adds(ctx, shard, nshards):
     rnd = random.Random(ctx.sub_seed("c14a", shard))
     rows = L.rows[1:]
     for it in range(500 if not ctx.thorough else 6000):
-        n = rnd.choice(list(range(1, 81)) + [3600, 86400, 86401, 31536000, 10 ** 8]) * rnd.choice((1, -1))
+        # whole years +- a few seconds cross several insertions and land next to another one
+        n = rnd.choice(list(range(1, 81)) + [3600, 86400, 86401, 31536000, 10 ** 8] +
+                       [y * 31536000 + k for y in (1, 2, 3) for k in (-3, -2, -1, 1, 2, 3)] +
+                       [y * 31536000 + 86400 + k for y in (4, 5) for k in (-2, -1, 0, 1, 2)]) * rnd.choice((1, -1))
         starts = []
         for _ in range(40):
             t = rnd.choice(rows)[0] + rnd.randrange(-40, 41)
             if rnd.random() < 0.15:
                 t = rnd.randrange(L.t[0], min(TMAX, L.t[-1] + 10 ** 9))
-            starts.append(t)
+            starts.append((t, False) if rnd.random() > 0.1 else (rnd.choice(rows)[0], True))
         rep = rnd.choice(("ymd", "ymd", "ymcw"))
 
         def txt(e, is60):
@@ -164,14 +185,14 @@ def adds(ctx, shard, nshards):
                 nn = R.n_of(int(s[:4]), int(s[5:7]), int(s[8:10]))
                 s = R.f_ymcw(nn) + s[10:]
             return s
-        ins = [txt(t, False) for t in starts]
+        ins = [txt(*t) for t in starts]
         try:
             out, _ = run_lines(ctx.build, "dadd", ["--", "%+drs" % n], ins)
         except BatchError as e:
             V.add("batch:dadd", {"n": n, "kind": "batch"}, detail=str(e), actual=e.result.brief())
             continue
-        for t, i, o in zip(starts, ins, out):
-            T = L.tai_of(t) + n
+        for (t, t60), i, o in zip(starts, ins, out):
+            T = L.tai_of(t, t60) + n
             try:
                 u, is60 = L.utc_of_tai(T)
             except ValueError:
@@ -180,13 +201,15 @@ def adds(ctx, shard, nshards):
                 continue
             x = txt(u, is60)
             sub.evaluations += 1
-            crosses = L.leaps_between(min(t, u), max(t, u)) > 0 or is60
+            crosses = L.leaps_between(min(t, u), max(t, u)) > 0 or is60 or t60
             if crosses or max(t, u) >= I31:
                 sub.nt((t, n, rep))
             if o != x:
                 tag = "dadd:rs:%s:%s" % (rep, "neg" if n < 0 else "pos")
                 if is60:
                     tag += ":lands-on-60"
+                if t60:
+                    tag += ":from-60"
                 if max(t, u) >= I31:
                     tag += "@post2038"
                 V.add(tag, {"in": i, "dur": "%+drs" % n, "exp": x, "kind": "add"}, expected=x, actual=o,
@@ -249,7 +272,7 @@ def replay(ctx, subname, case):
         out, _ = run_lines(ctx.build, "dconv", ["--zone", case["zone"], "-f", "%FT%T"], [case["in"]])
         return None if out[0] == case["exp"] else {"in": case["in"], "expected": case["exp"], "actual": out[0]}
     if k == "diff":
-        out, _ = run_lines(ctx.build, "ddiff", [case["a"], "-f", "%rS"], [case["b"]])
+        out, _ = run_lines(ctx.build, "ddiff", [case["a"], "-f", case.get("fmt", "%rS")], [case["b"]])
         return None if out[0] == case["exp"] else {"a": case["a"], "b": case["b"], "expected": case["exp"], "actual": out[0]}
     if k == "add":
         out, _ = run_lines(ctx.build, "dadd", ["--", case["dur"]], [case["in"]])
